@@ -29,6 +29,15 @@ JUSTIFIED = {
     ("staking::execute::execute_withdraw", "unwrap", "payload(Map::load(batches)).received_native_unstaked"): ("status == Received (checked above) implies received_native_unstaked is Some: the only site that sets Received sets it in the same save", "received-set-with-status"),
     ("staking::state::remove_unstake_request", "unwrap", "IndexedMap::remove(unstake_requests)"): ("IndexedMap::remove fails only if the stored record does not deserialise", None),
 }
+# justifications that do not depend on the enclosing function (the fact they rest on is global):
+# (kind, descriptor) -> reason.  A site moved into another function keeps its justification.
+JUSTIFIED_ANYWHERE = {
+    ("unwrap", "serde_json::to_string"): "serialising the oracle message (an enum of Strings) cannot fail",
+    ("unwrap", "Item::load(state)"): "STATE is saved by instantiate on every success path before any other entry point can run",
+    ("unwrap", "IbcTimeout::timestamp(IbcTimeout::with_timestamp)"): "a timeout built with with_timestamp always has a timestamp",
+    ("unwrap", "IndexedMap::remove(unstake_requests)"): "IndexedMap::remove fails only if the stored record does not deserialise",
+    ("expect", "payload(Admin::get(admin))"): "every Admin::set passes Some(addr)",
+}
 # R5: ratio sites whose denominator is not locally guarded: (function, callee short) -> reason
 RATIO_JUSTIFIED = {
     ("staking::helpers::compute_unbond_amount", "multiply_ratio"): "only called from SubmitBatch after ensure!(total_lst >= batch_total) with a non-empty batch (batch_total > 0), hence total_lst > 0",
@@ -195,6 +204,8 @@ def run(R, env):
                 if how is None and (k, kind, d) in JUSTIFIED:
                     how = "I4"
                     used_just.add((k, kind, d))
+                if how is None and (kind, d) in JUSTIFIED_ANYWHERE and (d != "serde_json::to_string" or any(s_[0] == "agg" and s_[1].endswith("oracle::Oracle") for s_ in subterms(subj))) and not k.endswith("::instantiate"):
+                    how = "I4'"
                 R.ob("C16.R2", "%s:%s" % (kind, d), how is not None, "%s of %s is not dominated by a test of the same value and is not in the reviewed justification table (descriptor `%s`)" % (kind, fmt(subj)[:160], d), loc=b.loc(bi), fn=k)
                 if how:
                     R.info("C16.R2", "%s %s %s -> %s" % (k.split("::", 1)[1], kind, d, how))
